@@ -56,30 +56,102 @@ _RELAX = _rows('u', '> u') + [
     ('TEMP-nodes-hold-tentative-values-over-the-relaxed-part', _N1 % ("implies(S[w], And(D[u, w] > mcur, implies(" + RCH('u', 'w') + ", wd(G, u, w) >= mcur), " + (_TENT % ', Or(D[u, v] < mcur, vpos[v] < _it)') + "))")),
 ]
 
-CONTRACTS['distance_wei'] = Contract(
-    MOD, 'distance_wei', ['G'], setup=_setup,
-    requires=[('lengths-nonnegative', _N2 % "G[v, w] >= 0"), ('infinity-exceeds-every-path-length', "And(INF > 0, forall(lambda v, w, x: implies(And(inr(v, n0), inr(w, n0), inr(x, n0), " + RCH('v', 'w') + "), wd(G, v, w) + G[w, x] < INF)))")],
-    loops={
-        'for u in range(n)': {'name': 'sources', 'inv': _rows('_it', '>= _it') + [('FRAME', "And(n == n0, unchanged('G'))")]},
-        'while True': {'name': 'rounds', 'inv': _ROUND, 'declare': {'V': ('int1', '?')}, 'ghosts': ['pr', 'vpos', 'mcur']},
-        'for v in V': {'name': 'relax', 'inv': _RELAX, 'ghosts': ['pr']},
-    },
-    abstract={'wi = np.argmin(td, axis=0)': {}, 'ind = W[np.where(wi == 1)]': {}, 'B[u, ind] = B[u, v] + 1': {'allow_store': {'B': True}}},
-    ghost_after={
-        'n = len(G)': "assume(lemma_walks(G, n0), lemma_wd(G, n0))",
-        'V = [u]': "mcur = 0; pr = lam1(lambda w: 0, n0); vpos = lam1(lambda w: 0, n0)",
-        'D[u, W] = d': "pr = lam1(lambda w: (v if And(S[w], G1[v, w] != 0, Dold[u, w] > D[u, w]) else pr[w]), n0)",
-        'V, = np.where(*': "mcur = minD; vpos = lam1(lambda w: where_index1(V, w), n0)",
-    },
-    ghost_before={
-        'D[u, W] = d': "Dold = snapshot(D)",
-        'if D[u, S].size == 0': "check('H-permanent-nodes-are-reachable', " + (_N1 % ("implies(Not(S[w]), " + RCH('u', 'w') + ")")) + "); "
-                                "check('H-permanent-nodes-are-not-farther-than-reachable-temporary-ones', " + (_N2 % ("implies(And(Not(S[v]), S[w], " + RCH('u', 'w') + "), wd(G, u, v) <= wd(G, u, w))")) + "); "
-                                "check('H-tentative-values-are-upper-bounds', " + (_N2 % "implies(And(Not(S[v]), S[w], G[v, w] != 0), And(D[u, w] <= wd(G, u, v) + G[v, w], wd(G, u, v) + G[v, w] < INF))") + "); "
-                                "check('H-finite-tentative-values-are-attained', " + (_N1 % "implies(S[w], Or(D[u, w] == INF, And(inr(pr[w], n0), Not(S[pr[w]]), G[pr[w], w] != 0, D[u, w] == wd(G, u, pr[w]) + G[pr[w], w])))") + "); "
-                                "check('H-tentative-values-never-exceed-infinity', " + (_N1 % "implies(S[w], D[u, w] <= INF)") + ")",
-        'if np.isinf(minD)': "assume(lemma_dijkstra(G, u, lam1(lambda w: Not(S[w]), n0), lam1(lambda w: D[u, w], n0), pr, n0, minD, last_masked_argmin()))",
-    },
-    ensures=[('distance-is-the-minimum-path-length', _N2 % ("implies(" + RCH('v', 'w') + ", result(0)[v, w] == wd(G, v, w))")),
-             ('infinite-exactly-when-unreachable', _N2 % ("implies(Not(" + RCH('v', 'w') + "), result(0)[v, w] == INF)")),
-             ('argument-untouched', "unchanged('G')")])
+def _dijkstra_contract(module, qualname, key, with_B, ensures, extra_before=None):
+    ab = {'wi = np.argmin(td, axis=0)': {}, 'ind = W[np.where(wi == 1)]': {}, 'B[u, ind] = B[u, v] + 1': {'allow_store': {'B': True}}} if with_B else {}
+    return Contract(
+        module, qualname, ['G'], setup=_setup, key=key,
+        requires=[('lengths-nonnegative', _N2 % "G[v, w] >= 0"),
+                  ('infinity-exceeds-every-path-length', "And(INF > 0, forall(lambda v, w, x: implies(And(inr(v, n0), inr(w, n0), inr(x, n0), " + RCH('v', 'w') + "), wd(G, v, w) + G[w, x] < INF)))")],
+        loops={
+            'for u in range(n)': {'name': 'sources', 'inv': _rows('_it', '>= _it') + [('FRAME', "And(n == n0, unchanged('G'))")]},
+            'while True': {'name': 'rounds', 'inv': _ROUND, 'declare': {'V': ('int1', '?')}, 'ghosts': ['pr', 'vpos', 'mcur']},
+            'for v in V': {'name': 'relax', 'inv': _RELAX, 'ghosts': ['pr']},
+        },
+        abstract=ab,
+        ghost_after={
+            'n = len(G)': "assume(lemma_walks(G, n0), lemma_wd(G, n0))",
+            'V = [u]': "mcur = 0; pr = lam1(lambda w: 0, n0); vpos = lam1(lambda w: 0, n0)",
+            'D[u, W] = *': "pr = lam1(lambda w: (v if And(S[w], G1[v, w] != 0, Dold[u, w] > D[u, w]) else pr[w]), n0)",
+            'V, = np.where(*': "mcur = minD; vpos = lam1(lambda w: where_index1(V, w), n0)",
+        },
+        ghost_before={
+            'D[u, W] = *': "Dold = snapshot(D)",
+            'if D[u, S].size == 0': "check('H-permanent-nodes-are-reachable', " + (_N1 % ("implies(Not(S[w]), " + RCH('u', 'w') + ")")) + "); "
+                                    "check('H-permanent-nodes-are-not-farther-than-reachable-temporary-ones', " + (_N2 % ("implies(And(Not(S[v]), S[w], " + RCH('u', 'w') + "), wd(G, u, v) <= wd(G, u, w))")) + "); "
+                                    "check('H-tentative-values-are-upper-bounds', " + (_N2 % "implies(And(Not(S[v]), S[w], G[v, w] != 0), And(D[u, w] <= wd(G, u, v) + G[v, w], wd(G, u, v) + G[v, w] < INF))") + "); "
+                                    "check('H-finite-tentative-values-are-attained', " + (_N1 % "implies(S[w], Or(D[u, w] == INF, And(inr(pr[w], n0), Not(S[pr[w]]), G[pr[w], w] != 0, D[u, w] == wd(G, u, pr[w]) + G[pr[w], w])))") + "); "
+                                    "check('H-tentative-values-never-exceed-infinity', " + (_N1 % "implies(S[w], D[u, w] <= INF)") + ")",
+            'if np.isinf(minD)': "assume(lemma_dijkstra(G, u, lam1(lambda w: Not(S[w]), n0), lam1(lambda w: D[u, w], n0), pr, n0, minD, last_masked_argmin()))",
+            **(extra_before or {}),
+        },
+        ensures=ensures, inf_division=True)
+
+
+CONTRACTS['distance_wei'] = _dijkstra_contract(MOD, 'distance_wei', 'distance_wei', True, [
+    ('distance-is-the-minimum-path-length', _N2 % ("implies(" + RCH('v', 'w') + ", result(0)[v, w] == wd(G, v, w))")),
+    ('infinite-exactly-when-unreachable', _N2 % ("implies(Not(" + RCH('v', 'w') + "), result(0)[v, w] == INF)")),
+    ('argument-untouched', "unchanged('G')")])
+# the same algorithm nested in efficiency_wei, followed by the entrywise inverse (1/INF = 0, diagonal 0)
+CONTRACTS['efficiency_wei.distance_inv_wei'] = _dijkstra_contract('bct.algorithms.efficiency', 'efficiency_wei.distance_inv_wei', 'efficiency_wei.distance_inv_wei', False, [
+    ('inverse-of-the-minimum-path-length', _N2 % ("implies(And(v != w, " + RCH('v', 'w') + "), result()[v, w] == 1 / wd(G, v, w))")),
+    ('zero-when-unreachable', _N2 % ("implies(Not(" + RCH('v', 'w') + "), result()[v, w] == 0)")),
+    ('diagonal-zero', "forall(lambda v: implies(inr(v, n0), result()[v, v] == 0))"),
+    ('argument-untouched', "unchanged('G')")])
+
+
+# ---- efficiency_wei(local=False): global efficiency = mean over ordered pairs of 1 / (minimum total connection length) -------------
+# Modular: invert is used through its proved contract (contracts/utils.py: entrywise 1/w on the support, 0 elsewhere, fresh matrix), the
+# nested distance_inv_wei through the contract proved above.  The connection-length matrix is the ghost L; its z3 term is invl(Gw), the
+# total array that the stub of invert returns as well (cells outside the n x n shape are never read and no specification depends on them).
+_invl = z3.Function('invl', A2R, A2R)
+
+
+def _invl_axiom(M):
+    x, y = z3.Ints('x!il y!il')
+    r = z3.Select(z3.Select(_invl(M), x), y)
+    m = z3.Select(z3.Select(M, x), y)
+    return z3.ForAll([x, y], r == z3.If(m != 0, 1 / m, z3.RealVal(0)), patterns=[r])
+
+
+def _setup_ew(eng, st):
+    n = z3.Int('n0c')
+    st.pc.append(n >= 2)
+    st.ghost['n0'] = n
+    G = z3.Const('Gw0', A2R)
+    st.env['Gw'] = alloc(st, 2, G, (n, n), REAL)
+    st.env['local'] = False
+    st.pc.append(_invl_axiom(G))
+    st.ghost['L'] = alloc(st, 2, _invl(G), (n, n), REAL)
+
+
+def _callee_invert(eng, st, args, kw, node):
+    """contract of bct.utils.invert(W, copy=True) (proved: contracts/utils.py): a fresh matrix, 1/w where w != 0, 0 elsewhere."""
+    if kw.get('copy', args[1] if len(args) > 1 else True) is not True:
+        raise OutOfSubset('invert with copy != True inside a function under contract')
+    o = st.heap[args[0].oid]
+    M = eng.pure(o.term)
+    st.pc.append(_invl_axiom(M))
+    return alloc(st, 2, _invl(M), o.shape, REAL)
+
+
+def _rch(M, a, b):
+    return RCH(a, b).replace('(G,', '(%s,' % M)
+
+
+_DIW = CONTRACTS['efficiency_wei.distance_inv_wei']
+CONTRACTS['efficiency_wei'] = Contract(
+    'bct.algorithms.efficiency', 'efficiency_wei', ['Gw', 'local'], setup=_setup_ew,
+    requires=[('weights-nonnegative', _N2 % "Gw[v, w] >= 0"),
+              ('infinity-exceeds-every-path-length', "And(INF > 0, forall(lambda v, w, x: implies(And(inr(v, n0), inr(w, n0), inr(x, n0), " + _rch('L', 'v', 'w') + "), wd(L, v, w) + L[w, x] < INF)))")],
+    ensures=[('global-efficiency-is-the-mean-inverse-of-the-minimum-path-lengths',
+              "And(result() == tsum(e, n0) / (n0 * n0 - n0), "
+              + (_N2 % "Gl[v, w] == (1 / arg('Gw')[v, w] if arg('Gw')[v, w] != 0 else 0)") + ", "
+              + (_N2 % ("implies(v != w, And(implies(" + _rch('Gl', 'v', 'w') + ", e[v, w] == 1 / wd(Gl, v, w)), implies(Not(" + _rch('Gl', 'v', 'w') + "), e[v, w] == 0)))")) + ", "
+              "forall(lambda v: implies(inr(v, n0), e[v, v] == 0)))"),
+             ('argument-untouched', "unchanged('Gw')")])
+from engine.pyvc.run import callee_from_clauses
+from engine.pyvc.core import OutOfSubset
+CONTRACTS['efficiency_wei'].callees = {
+    'invert': _callee_invert,
+    'distance_inv_wei': callee_from_clauses('distance_inv_wei', ['G'], _DIW.requires, [c for c in _DIW.ensures if c[0] != 'argument-untouched'], [('mat', 'n0', 'n0')], ghosts={'n0': 'len(G)'}),
+}
